@@ -437,10 +437,21 @@ pub fn run_families(opts: &RunOpts, families: Vec<Family>) -> Summary {
                     local.sim_steps += out.sim_steps;
                     per_run_hash.lock().unwrap().insert(idx, out.log_hash);
                     if off < 2 {
-                        local.samples.push(serde_json::json!({
-                            "family": fam.name, "run": off,
-                            "case": serde_json::to_value(&case.body).unwrap(),
-                        }));
+                        // samples are written out in the evidence file: keep them readable
+                        let js = serde_json::to_string(&case.body).unwrap();
+                        if js.len() <= 6000 {
+                            local.samples.push(serde_json::json!({
+                                "family": fam.name, "run": off,
+                                "case": serde_json::to_value(&case.body).unwrap(),
+                            }));
+                        } else {
+                            let head: String = js.chars().take(1500).collect();
+                            local.samples.push(serde_json::json!({
+                                "family": fam.name, "run": off,
+                                "case_abbreviated": format!("{head}…"),
+                                "case_json_bytes": js.len(),
+                            }));
+                        }
                     }
                     if !out.viols.is_empty() {
                         // split into known findings and unlisted violations
@@ -494,7 +505,7 @@ pub fn run_families(opts: &RunOpts, families: Vec<Family>) -> Summary {
     let mut s = sum.into_inner().unwrap();
     s.violations.sort_by_key(|v| v.0);
     s.samples.sort_by_key(|v| v.to_string());
-    s.samples.truncate(6);
+    s.samples.truncate(12);
     let mut d = Digest::default();
     for (k, v) in per_run_hash.into_inner().unwrap() {
         d.u64(k);
